@@ -87,7 +87,8 @@ claim("C04", "decreases clauses discharged for: the propagation loop of bound_co
       "The search loop of solve_one (multiset measure) and the Hall-interval pointer loops are covered by bounded suites with a per-call watchdog.",
       "contract-based deductive verification (decreases) + bounded suites with watchdog", level="other")
 claim("C10", "shave_bound contract (stack height restored, only the probed bound may move and only by one, it moves iff the probe's propagation pass returned INCONSISTENT, watchers of the moved bound are queued, flag rows and lower levels untouched) and "
-      "shaving_consistency_algorithm proved to satisfy the same ConsistencyAlg interface contract as plain BC (so every caller verified against the interface is verified for shaving).",
+      "shaving_consistency_algorithm proved to satisfy the same ConsistencyAlg interface contract as plain BC (so every caller verified against the interface is verified for shaving: with C01/C02 it enumerates the same solutions). "
+      "'Contained in what plain bound consistency returns' is checked by the bounded pass monitor (every shaving pass of the real solver, also with small stacks where no level is free for a probe, against a plain pass from a copy of the same state).",
       "contract-based deductive verification (own AST->VC generator, z3)", level="other")
 claim("C11", "MultiprocessingSolver.solve/optimize verified for an ARBITRARY well-formed message sequence (= every interleaving): never reads past the stream, consumes every message, returns at the last completion marker, yields each solution exactly once, "
       "keeps the extremal objective (None iff no solution), final statistics are those of each worker's marker; sum_stats/max_stats; worker side: solve_and_queue/optimize_and_queue emit exactly one marker, last.",
@@ -104,9 +105,14 @@ claim("C18", "get_message contract under an explicit environment contract: every
       "contract-based deductive verification of a safety reformulation under an environment contract", level="other")
 claim("C08", "Shrink-only and frame clauses of BC and shaving (postconditions), exact set semantics of the propagation queue (add_propagators, pop_propagator), "
       "declared wake-up masks contain the needed events (get_triggers_X contracts for all 21 propagators), event masks announced by the value heuristics and recorded for backtracking cover every moved bound (C09 clauses), "
-      "BC queues the watchers of every bound it moves and re-filters a propagator whose aliased views were intersected. The fixpoint itself (re-executing any enabled constraint neither fails nor prunes) and the trigger clause of Problem.init are "
-      "checked by bounded suites (fixpoint monitor after every propagation pass of the real solver).",
-      "contract-based deductive verification + bounded fixpoint monitor", level="other")
+      "BC queues the watchers of every bound it moves and re-filters a propagator whose aliased views were intersected. "
+      "Fixpoint layer (uninterpreted Fix(p, level, store); hypotheses: no constraint has one shared domain at two positions, the linear equality watches MIN|MAX; two trusted axiom schemas listed under assumptions: "
+      "A-FIX-ADEQ 'an unwatched change of one domain keeps a fixpoint' (wake-up masks are sufficient) and A-FIX-RAN 'a constraint that ran and sees its own output is at a fixpoint if nothing changed or it is idempotent'): "
+      "bound_consistency_algorithm#fix ends with every enabled constraint at a fixpoint provided the constraints that are not queued were (its queue discipline: exact events, self re-queue of the linear equality, skip of the propagator that just ran only when it saw its own output); "
+      "solve_one#fix, shave_bound#fix and shaving_consistency_algorithm#fix establish that precondition at every pass of a search (after a branch: the new rows differ from the propagated one on the split domain only and the announced events are accurate; "
+      "after a backtrack: the recorded update wakes what it must; inside shaving: the probe row and the shaved / restored row). The per-propagator content of the two axioms, the trigger clause of Problem.init and the largest-fixpoint claim stay with the bounded suites "
+      "(fixpoint monitor after every propagation pass of the real solver, including the passes nested in shaving).",
+      "contract-based deductive verification (queue discipline under two trusted axiom schemas) + bounded fixpoint monitor", level="other")
 claim("C20", "Per-model lemmas discharged by z3 on the declarative content produced by the REAL constructors (queens up to 30, magic sequence up to 10, magic square 3-5 with/without symmetry breaking, latin squares incl. givens and the RC model, Schur up to 12): "
       "posted relations imply the definition-level validator (soundness, all variants), and without symmetry breaking the validator implies the posted relations and the declared domains (completeness). "
       "Counts, optima and the remaining models are bounded: every shipped model (queens, magic sequence, magic square, latin square (+RC, +givens), circuit, Schur (with/without symmetry breaking), QG5, BIBD, donald, sudoku, knapsack, TSP, Golomb) "
@@ -120,7 +126,8 @@ claim("C05", "Generic propagator contract clauses P1 (contraction) and P2 (every
 claim("C06", "Clause P3 (a non-failing call that leaves a point leaves a tuple of the relation) with P2 (iff on ground inputs) on each compute_domains_X under contract.",
       "contract-based deductive verification (own AST->VC generator, z3)", level="other")
 claim("C07", "Clause P4 (ENTAILMENT only if every tuple of the returned box satisfies the relation) on the entailing propagators, plus the flag-row contracts of cp_put, backtrack and the BC loop "
-      "(a flag is cleared only on ENTAILMENT, rows below the top are never touched, a new level inherits the row).",
+      "(a flag is cleared only on ENTAILMENT, rows below the top are never touched, a new level inherits the row); engine-level meaning proved in the acceptance variants: J / JL 'a disabled constraint holds on every point of its level's box' "
+      "is kept by BC, shaving, branching and backtracking (#acc variants), and every index into the flag array is in range (a wrapped negative index would disable another constraint).",
       "contract-based deductive verification (own AST->VC generator, z3)", level="other")
 claim("C09", "DomHeuristic interface contract (non-empty, disjoint, covering sub-ranges; other domains, lower levels and flag rows untouched; returned and recorded event masks cover every moved bound incl. GROUND) "
       "proved for min_value, max_value, split_low, value, mid_value, min_cost; contracts of cp_put, backtrack, add_propagators; solve_one re-establishes the queue through add_propagators.",
